@@ -4,7 +4,7 @@ CONSTANTS
   MaxOps = 6
   MaxWrite = 2
   Emit = FALSE
-  ReservePolicy = "fromend"
+  ReservePolicy = "fromstart"
 INVARIANTS NeverBelowPrefix LengthKeepsPrefix StartsAbovePrefix ResultStartsWithPrefix NoPanic
 PROPERTIES RoomAfterReserve
 CHECK_DEADLOCK FALSE
